@@ -12,7 +12,7 @@ RULE = ('cases: (op, a, b, n) over wide_integer<Digits, Narrowest> instantiation
         'floating point (MPFR), exact decimal string. non-trivial: an operand with more than one significant limb; distinct by '
         '(site, op, operands).')
 
-QUICK = [(65, 'int'), (100, 'unsigned'), (128, 'int'), (129, 'int'), (160, 'unsigned'), (200, 'int'), (255, 'std::int64_t'), (256, 'std::uint64_t'),
+QUICK = [(65, 'int'), (127, 'int'), (100, 'unsigned'), (128, 'int'), (129, 'int'), (160, 'unsigned'), (200, 'int'), (255, 'std::int64_t'), (256, 'std::uint64_t'),
          (256, 'unsigned'), (300, 'std::uint8_t'), (511, 'std::int16_t'), (1000, 'int'), (1024, 'std::uint16_t'), (2000, 'std::uint8_t'), (2048, 'unsigned'),
          (2048, 'std::uint8_t'), (2047, 'std::int8_t')]  # 256 limbs: Karatsuba with a power-of-two limb count
 MORE = [(200, 'std::uint64_t'), (512, 'std::int64_t'), (1088, 'std::int8_t'), (2000, 'std::int64_t'), (1000, 'std::uint8_t'), (129, 'std::uint16_t'),
